@@ -149,3 +149,49 @@ Theorem C09_parked_blocks_vetted : forall iv cluster_of cap genesis evs b,
   In b (n_orph (run iv cluster_of cap genesis evs (init genesis))) -> vetted iv evs b.
 Proof. exact parked_blocks_vetted. Qed.
 Print Assumptions C09_parked_blocks_vetted.
+
+(** "... belongs to a CURRENT block producer", at the chain-service level: as long as no
+    reorganisation failed in rollforward, a main-chain block is validated against the set in
+    force after its own parent.  Partial: after a failed rollforward the consensus is left on
+    the abandoned branch (refuted below; known finding C09:producer-set-stale-after-failed-reorg,
+    reproduced on the real ChainService by corpus/C09 on every run). *)
+Theorem C09_connected_validated_against_parent_partial :
+  forall iv cluster_of cap genesis evs pre b p post,
+  no_failed_rollforward iv cluster_of cap genesis evs (init genesis) ->
+  n_main (run iv cluster_of cap genesis evs (init genesis)) = pre ++ b :: p :: post ->
+  b_parent b = b_id p /\
+  is_block_valid Z.eqb iv (cluster_of (b_id p)) (b_signer b) (b_ts b) = true.
+Proof. exact connected_validated_against_parent_partial. Qed.
+Print Assumptions C09_connected_validated_against_parent_partial.
+
+Theorem C09_connected_validated_against_parent_refuted :
+  exists iv cluster_of cap genesis evs pre b p post,
+    n_main (run iv cluster_of cap genesis evs (init genesis)) = pre ++ b :: p :: post /\
+    b_parent b = b_id p /\
+    is_block_valid Z.eqb iv (cluster_of (b_id p)) (b_signer b) (b_ts b) = false /\
+    ~ In (b_signer b) (cluster_of (b_id p)).
+Proof. exact connected_validated_against_parent_refuted. Qed.
+Print Assumptions C09_connected_validated_against_parent_refuted.
+
+(** Other consensus types anchored by C09 (the property is written for DPoS slots): raftv2's
+    consensus-level checks enforce the signature clause only; its membership / slot / clock
+    clauses and every clause for sbp are refuted of those functions (partial / not applicable:
+    raft gets producer legitimacy from the raft log, sbp is the single-producer development mode).
+    Tied to the real BlockFactory / SimpleBlockFactory methods by harness/engines/c09chain/
+    zz_verif_c09{raft,sbp}_engine_test.go. *)
+Theorem C09_raft_accepts_iff_signature_and_key : forall key_parses sig_ok,
+  checks_accept (raft_checks key_parses sig_ok) = true <-> sig_ok = true /\ key_parses = true.
+Proof. exact raft_accepts_iff_signature_and_key. Qed.
+Print Assumptions C09_raft_accepts_iff_signature_and_key.
+
+Theorem C09_raft_producer_slot_clock_clauses_refuted :
+  exists iv ids signer ts now,
+    is_block_valid Z.eqb iv ids signer ts = false /\ ~ In signer ids /\
+    is_future (from_unix_ns iv ts) (from_unix_ns iv now) = true /\
+    checks_accept (raft_checks true true) = true.
+Proof. exact raft_producer_slot_clock_clauses_refuted. Qed.
+Print Assumptions C09_raft_producer_slot_clock_clauses_refuted.
+
+Theorem C09_sbp_all_clauses_refuted : checks_accept (sbp_checks false false) = true.
+Proof. exact sbp_all_clauses_refuted. Qed.
+Print Assumptions C09_sbp_all_clauses_refuted.
